@@ -112,26 +112,34 @@ def gen_program(rng: random.Random, handles: str, resources=("r0",), ntasks=None
               "linear"  every Handle state is passed to at most one call per task body, and a task
                         body uses each of its parameters at most once
               "shared"  Handle states may be passed to several sibling calls
+
+    The same call expression is written twice in one body only if the callee returns an int: a
+    duplicated call is evaluated once and its result OBJECT is put in both places, and a value that
+    holds one container object twice does not hash like an equal value built from distinct objects
+    (known finding, exercised by its own witness in harness/props/c07.py).
     """
     n = ntasks or rng.randint(3, 6)
-    # decide the arity of every task first (root has none)
     arity = [0] + [rng.randint(0, 2) for _ in range(n - 1)]
-    prog = []
-    for i in range(n):
+    prog: list = [None] * n
+    for i in range(n - 1, -1, -1):          # callees first: their bodies are known when task i is written
         callees = list(range(i + 1, n))
         used_params: set = set()
         fresh = [0]
+        seen_calls: set = set()
 
-        def value(depth, want_handle_ok=True):
+        def int_valued(t):
+            return prog[t]["body"][0] == "c"
+
+        def value(depth):
             r = rng.random()
             params = list(range(arity[i]))
             if handles == "linear":
-                params = [p for p in params if p not in used_params]
+                params = [q for q in params if q not in used_params]
             if params and r < 0.35:
-                p = rng.choice(params)
-                used_params.add(p)
-                return ("p", p)
-            if handles != "none" and want_handle_ok and r < 0.6:
+                q = rng.choice(params)
+                used_params.add(q)
+                return ("p", q)
+            if handles != "none" and r < 0.6:
                 if handles == "linear":
                     fresh[0] += 1
                     return ("h", i * 4 + fresh[0])       # a new name each time: never shared
@@ -141,18 +149,23 @@ def gen_program(rng: random.Random, handles: str, resources=("r0",), ntasks=None
             return ("c", rng.randint(0, 2))
 
         def call(depth):
-            t = rng.choice(callees)
-            return ("call", t, tuple(value(depth) for _ in range(arity[t])))
+            for _ in range(6):
+                t = rng.choice(callees)
+                ce = ("call", t, tuple(value(depth) for _ in range(arity[t])))
+                if ce not in seen_calls or (int_valued(t) and not texpr_has_handle(ce)):
+                    break
+            else:
+                return ("c", 9)
+            seen_calls.add(ce)
+            return ce
 
         def body():
-            if not callees:
+            if not callees or rng.random() < 0.15:
                 k = rng.random()
-                if arity[i] and k < 0.6:
-                    p = rng.randrange(arity[i])
-                    if handles == "linear" and p in used_params:
-                        return ("c", i)
-                    used_params.add(p)
-                    return ("l", (("c", i), ("p", p)))
+                if arity[i] and k < 0.5:
+                    q = rng.randrange(arity[i])
+                    used_params.add(q)
+                    return ("l", (("c", i), ("p", q)))
                 return ("c", i)
             items = []
             for _ in range(rng.choice([1, 2, 2, 3])):
@@ -160,16 +173,14 @@ def gen_program(rng: random.Random, handles: str, resources=("r0",), ntasks=None
                     items.append(call(1))
                 else:
                     items.append(value(1))
-            if handles != "none" and rng.random() < 0.15 and len(items) >= 2 and items[0][0] == "call":
-                # twin: the same call expression twice (deduplicated inside one parent) — only without
-                # handles in "linear" mode
-                if handles != "linear" or not texpr_has_handle(items[0]):
-                    items.append(items[0])
+            twins = [x for x in items if x[0] == "call" and int_valued(x[1]) and not texpr_has_handle(x)]
+            if twins and rng.random() < 0.3:
+                items.append(rng.choice(twins))          # the same call expression twice: evaluated once
             return ("l", tuple(items))
 
         b = body()
         lim = None
         if i > 0 and resources and rng.random() < 0.6:
             lim = {rng.choice(list(resources)): 1}
-        prog.append({"n": arity[i], "body": b, "limits": lim})
+        prog[i] = {"n": arity[i], "body": b, "limits": lim}
     return prog
